@@ -209,7 +209,7 @@ def oracle_sample(case):
         eps = vs.dkw_eps(n)
         for j in range(2):
             uni = vine.unis[j]
-            dist = vs.ks_distance(X[:, j], lambda x, _u=uni: np.asarray(_u.cdf(np.asarray(x, dtype=float)), dtype=float))
+            dist = vs.ks_excess_at_resolution(X[:, j], lambda x, _u=uni: np.asarray(_u.cdf(np.asarray(x, dtype=float)), dtype=float), vs.resolution_of(uni))
             require(dist <= eps + 0.011, 'd=2: sampled column %r does not follow its fitted marginal: KS %.4f > %.4f' % (names[j], dist, eps + 0.011), tag='marginal')
         e = value(vine.to_dict, what='to_dict')['trees'][0]['edges'][0]
         fam, theta = fam_of(e['name']), float(e['theta'])
